@@ -1,19 +1,681 @@
 package vc
 
 import (
+	"fmt"
+	"go/ast"
+	"go/types"
+	"strings"
+
 	"golang.org/x/tools/go/ssa"
 )
 
 // Expr is a parsed contract expression (see contractparse.go).
 type Expr interface{}
 
-func (e *Exec) assumeRequires(fr *Frame, st *State, c *Contract) {}
+type ev struct {
+	v Value
+	t types.Type // nil for ghost integers / booleans
+}
+
+type evalEnv struct {
+	e    *Exec
+	fr   *Frame
+	fn   *ssa.Function
+	st   *State
+	old  *State
+	vars map[string]ev
+	phis map[*ssa.Phi]Value // loop invariants: phi overrides
+	qn   *int
+}
+
+func (en *evalEnv) with(vars map[string]ev) *evalEnv {
+	n := *en
+	n.vars = map[string]ev{}
+	for k, v := range en.vars {
+		n.vars[k] = v
+	}
+	for k, v := range vars {
+		n.vars[k] = v
+	}
+	return &n
+}
+
+type evalErr struct{ msg string }
+
+func (en *evalEnv) fail(f string, a ...any) { panic(evalErr{fmt.Sprintf(f, a...)}) }
+
+func (en *evalEnv) boolTerm(x Expr) *Term {
+	r := en.eval(x)
+	t, ok := r.v.(*Term)
+	if !ok || t.Sort != SBool {
+		en.fail("boolean expected in contract")
+	}
+	return t
+}
+
+func (en *evalEnv) intTerm(x Expr) *Term {
+	r := en.eval(x)
+	t, ok := r.v.(*Term)
+	if !ok || t.Sort != SInt {
+		en.fail("integer expected in contract: %#v", x)
+	}
+	return t
+}
+
+func derefNamed(t types.Type) types.Type {
+	if p, ok := t.Underlying().(*types.Pointer); ok {
+		return p.Elem()
+	}
+	return t
+}
+
+// findField resolves a (possibly promoted) field; returns the path of field
+// indices and the field type.
+func findField(t types.Type, name string) ([]int, types.Type) {
+	st, ok := derefNamed(t).Underlying().(*types.Struct)
+	if !ok {
+		return nil, nil
+	}
+	for i := 0; i < st.NumFields(); i++ {
+		if st.Field(i).Name() == name {
+			return []int{i}, st.Field(i).Type()
+		}
+	}
+	for i := 0; i < st.NumFields(); i++ {
+		f := st.Field(i)
+		if f.Embedded() {
+			if p, ft := findField(f.Type(), name); p != nil {
+				return append([]int{i}, p...), ft
+			}
+		}
+	}
+	return nil, nil
+}
+
+func (en *evalEnv) lookupIdent(name string) (ev, bool) {
+	if v, ok := en.vars[name]; ok {
+		return v, true
+	}
+	e := en.e
+	for _, p := range en.fn.Params {
+		if p.Name() == name {
+			return ev{e.val(en.fr, p), p.Type()}, true
+		}
+	}
+	for _, p := range en.fn.FreeVars {
+		if p.Name() == name {
+			// captured variable: pointer to cell
+			pt := p.Type().(*types.Pointer).Elem()
+			return ev{e.load(en.fr, en.st, e.val(en.fr, p), pt), pt}, true
+		}
+	}
+	// loop phi by source name
+	if en.phis != nil {
+		for phi, v := range en.phis {
+			if phi.Comment == name {
+				return ev{v, phi.Type()}, true
+			}
+		}
+	}
+	// a local with a unique SSA value (needs debug refs)
+	if v := en.e.namedValue(en.fr, en.fn, name); v != nil {
+		if a, ok := v.(*ssa.Alloc); ok {
+			pt := a.Type().(*types.Pointer).Elem()
+			return ev{e.load(en.fr, en.st, e.val(en.fr, a), pt), pt}, true
+		}
+		return ev{e.val(en.fr, v), v.Type()}, true
+	}
+	// package-level variable or constant
+	if en.fn.Pkg != nil {
+		if m, ok := en.fn.Pkg.Members[name]; ok {
+			return en.member(m)
+		}
+	}
+	return ev{}, false
+}
+
+func (en *evalEnv) member(m ssa.Member) (ev, bool) {
+	switch x := m.(type) {
+	case *ssa.Global:
+		pt := x.Type().(*types.Pointer).Elem()
+		return ev{en.e.load(en.fr, en.st, en.e.val(en.fr, x), pt), pt}, true
+	case *ssa.NamedConst:
+		return ev{en.e.constVal(x.Value), x.Type()}, true
+	}
+	return ev{}, false
+}
+
+// namedValue finds the unique SSA value a source identifier refers to.
+func (e *Exec) namedValue(fr *Frame, fn *ssa.Function, name string) ssa.Value {
+	var found ssa.Value
+	for _, b := range fn.Blocks {
+		for _, in := range b.Instrs {
+			switch x := in.(type) {
+			case *ssa.DebugRef:
+				id, ok := x.Expr.(*ast.Ident)
+				if !ok || id.Name != name {
+					continue
+				}
+				if found != nil && found != x.X {
+					return nil // ambiguous
+				}
+				found = x.X
+			case *ssa.Alloc:
+				if x.Comment == name {
+					if found != nil && found != x {
+						return nil
+					}
+					found = x
+				}
+			}
+		}
+	}
+	return found
+}
+
+func (en *evalEnv) pkgByName(name string) *ssa.Package {
+	if en.fn.Pkg == nil {
+		return nil
+	}
+	for _, imp := range en.fn.Pkg.Pkg.Imports() {
+		if imp.Name() == name {
+			return en.e.P.SSA.Package(imp)
+		}
+	}
+	if en.fn.Pkg.Pkg.Name() == name {
+		return en.fn.Pkg
+	}
+	return nil
+}
+
+func (en *evalEnv) typeByName(name string) types.Type {
+	star := false
+	if strings.HasPrefix(name, "*") {
+		star = true
+		name = name[1:]
+	}
+	var pkg *types.Package
+	tn := name
+	if i := strings.Index(name, "."); i >= 0 {
+		if sp := en.pkgByName(name[:i]); sp != nil {
+			pkg = sp.Pkg
+		}
+		tn = name[i+1:]
+	} else if en.fn.Pkg != nil {
+		pkg = en.fn.Pkg.Pkg
+	}
+	if pkg == nil {
+		en.fail("unknown package in type %s", name)
+	}
+	obj := pkg.Scope().Lookup(tn)
+	if obj == nil {
+		en.fail("unknown type %s", name)
+	}
+	t := obj.Type()
+	if star {
+		t = types.NewPointer(t)
+	}
+	return t
+}
+
+func typeExprName(x Expr) string {
+	switch t := x.(type) {
+	case *EIdent:
+		return t.Name
+	case *ESel:
+		if id, ok := t.X.(*EIdent); ok {
+			return id.Name + "." + t.Sel
+		}
+	case *EUnary:
+		// not used
+	case *EBinary:
+		// `*T` parses as multiplication only with a left operand; handled by caller
+	}
+	return ""
+}
+
+func (en *evalEnv) eval(x Expr) ev {
+	e := en.e
+	switch x := x.(type) {
+	case *EInt:
+		return ev{BigLit(x.Val), nil}
+	case *EBool:
+		if x.Val {
+			return ev{True, nil}
+		}
+		return ev{False, nil}
+	case *ENil:
+		return ev{&Term{"$nil", "$nil"}, nil}
+	case *EIdent:
+		v, ok := en.lookupIdent(x.Name)
+		if !ok {
+			en.fail("unknown identifier %s in contract of %s", x.Name, FuncName(en.fn))
+		}
+		return v
+	case *EOld:
+		n := *en
+		n.st = en.old
+		n.phis = nil
+		return n.eval(x.X)
+	case *ETernary:
+		c := en.boolTerm(x.C)
+		a, b := en.eval(x.A), en.eval(x.B)
+		return ev{e.iteValue(c, a.v, b.v), a.t}
+	case *EUnary:
+		if x.Op == "!" {
+			return ev{Not(en.boolTerm(x.X)), nil}
+		}
+		return ev{App(SInt, "-", en.intTerm(x.X)), nil}
+	case *EBinary:
+		return en.binary(x)
+	case *EQuant:
+		*en.qn++
+		vars := map[string]ev{}
+		var decl []string
+		for _, v := range x.Vars {
+			n := fmt.Sprintf("q!%s!%d", v, *en.qn)
+			vars[v] = ev{&Term{n, SInt}, nil}
+			decl = append(decl, "("+n+" Int)")
+		}
+		body := en.with(vars).boolTerm(x.Body)
+		q := "exists"
+		if x.Forall {
+			q = "forall"
+		}
+		return ev{&Term{fmt.Sprintf("(%s (%s) %s)", q, strings.Join(decl, " "), body.S), SBool}, nil}
+	case *ESel:
+		// package-qualified name?
+		if id, ok := x.X.(*EIdent); ok {
+			if _, isVar := en.lookupIdent(id.Name); !isVar {
+				if sp := en.pkgByName(id.Name); sp != nil {
+					if m, ok := sp.Members[x.Sel]; ok {
+						if v, ok := en.member(m); ok {
+							return v
+						}
+					}
+					en.fail("unknown member %s.%s", id.Name, x.Sel)
+				}
+			}
+		}
+		base := en.eval(x.X)
+		if base.t == nil {
+			en.fail("field %s of untyped value", x.Sel)
+		}
+		path, ft := findField(base.t, x.Sel)
+		if path == nil {
+			en.fail("no field %s in %s", x.Sel, base.t)
+		}
+		return ev{en.readFieldPath(base, path), ft}
+	case *EIndex:
+		base := en.eval(x.X)
+		i := en.intTerm(x.I)
+		if base.t == nil {
+			en.fail("index of untyped value")
+		}
+		switch u := base.t.Underlying().(type) {
+		case *types.Slice:
+			sl := base.v.(*Term)
+			es := sortOf(u.Elem())
+			if es == structSort {
+				return ev{e.elemRef(App(SInt, "sl-id", sl), Add(App(SInt, "sl-off", sl), i)), types.NewPointer(u.Elem())}
+			}
+			h := e.heapRead(en.st, "A_"+sortKey(es), ArrSort(ArrSort(es)))
+			return ev{Select(Select(h, App(SInt, "sl-id", sl)), Add(App(SInt, "sl-off", sl), i)), u.Elem()}
+		case *types.Basic:
+			return ev{App(SInt, "sat", base.v.(*Term), i), types.Typ[types.Byte]}
+		case *types.Map:
+			return ev{e.mapValue(en.st, base.v.(*Term), u, en.keyTerm(x.I, u.Key())), u.Elem()}
+		}
+		en.fail("cannot index %s", base.t)
+	case *ESlice:
+		base := en.eval(x.X)
+		sl, ok := base.v.(*Term)
+		if !ok || sl.Sort != SSl {
+			en.fail("slice expression on non-slice")
+		}
+		lo := IntLit(0)
+		if x.Lo != nil {
+			lo = en.intTerm(x.Lo)
+		}
+		hi := App(SInt, "sl-len", sl)
+		if x.Hi != nil {
+			hi = en.intTerm(x.Hi)
+		}
+		return ev{App(SSl, "mk-sl", App(SInt, "sl-id", sl), Add(App(SInt, "sl-off", sl), lo), Sub(hi, lo), Sub(App(SInt, "sl-cap", sl), lo)), base.t}
+	case *ECall:
+		return en.call(x)
+	}
+	en.fail("unsupported contract expression %T", x)
+	return ev{}
+}
+
+func (en *evalEnv) keyTerm(x Expr, kt types.Type) *Term {
+	r := en.eval(x)
+	t, ok := r.v.(*Term)
+	if !ok {
+		en.fail("bad map key")
+	}
+	return t
+}
+
+func (en *evalEnv) readFieldPath(base ev, path []int) Value {
+	e := en.e
+	t := base.t
+	cur := base.v
+	for k, fi := range path {
+		stT := derefNamed(t)
+		st := stT.Underlying().(*types.Struct)
+		ft := st.Field(fi).Type()
+		_, fieldIsStruct := ft.Underlying().(*types.Struct)
+		switch b := cur.(type) {
+		case *StructVal:
+			cur = b.Fs[fi]
+		case *Loc:
+			if b.Kind == LLocal {
+				nl := &Loc{Kind: LLocal, Key: fmt.Sprintf("%s.%d", b.Key, fi), Type: ft}
+				if fieldIsStruct {
+					cur = nl
+				} else {
+					cur = e.loadLoc(en.st, nl, ft)
+				}
+			} else {
+				en.fail("field of address")
+			}
+		case *Term:
+			name := structName(stT)
+			if fieldIsStruct {
+				cur = e.embRef(name, fi, b)
+			} else {
+				h := e.heapRead(en.st, fieldComp(name, fi), ArrSort(sortOf(ft)))
+				cur = Select(h, b)
+			}
+		}
+		t = ft
+		_ = k
+	}
+	return cur
+}
+
+func (en *evalEnv) binary(x *EBinary) ev {
+	switch x.Op {
+	case "&&":
+		return ev{And(en.boolTerm(x.X), en.boolTerm(x.Y)), nil}
+	case "||":
+		return ev{Or(en.boolTerm(x.X), en.boolTerm(x.Y)), nil}
+	case "==>":
+		return ev{Implies(en.boolTerm(x.X), en.boolTerm(x.Y)), nil}
+	case "<==>":
+		return ev{Eq(en.boolTerm(x.X), en.boolTerm(x.Y)), nil}
+	case "==", "!=":
+		a, b := en.eval(x.X), en.eval(x.Y)
+		eq := en.equal(a, b)
+		if x.Op == "!=" {
+			return ev{Not(eq), nil}
+		}
+		return ev{eq, nil}
+	case "<", "<=", ">", ">=":
+		return ev{App(SBool, x.Op, en.intTerm(x.X), en.intTerm(x.Y)), nil}
+	case "+", "-", "*":
+		return ev{App(SInt, x.Op, en.intTerm(x.X), en.intTerm(x.Y)), nil}
+	case "/":
+		return ev{App(SInt, "tdiv", en.intTerm(x.X), en.intTerm(x.Y)), nil}
+	case "%":
+		return ev{App(SInt, "trem", en.intTerm(x.X), en.intTerm(x.Y)), nil}
+	}
+	en.fail("operator %s", x.Op)
+	return ev{}
+}
+
+func (en *evalEnv) equal(a, b ev) *Term {
+	at, aok := a.v.(*Term)
+	bt, bok := b.v.(*Term)
+	if !aok || !bok {
+		en.fail("cannot compare composite values in a contract")
+	}
+	if at.Sort == "$nil" {
+		at, bt = bt, at
+	}
+	if bt.Sort == "$nil" {
+		switch at.Sort {
+		case SObj:
+			return Eq(App(SInt, "o-tag", at), IntLit(0))
+		case SSl:
+			return Eq(App(SInt, "sl-id", at), IntLit(0))
+		case SInt:
+			return Eq(at, IntLit(0))
+		}
+		en.fail("nil comparison on %s", at.Sort)
+	}
+	if at.Sort != bt.Sort {
+		en.fail("comparison of different sorts %s and %s", at.Sort, bt.Sort)
+	}
+	return Eq(at, bt)
+}
+
+func (en *evalEnv) call(x *ECall) ev {
+	e := en.e
+	arg := func(i int) ev {
+		if i >= len(x.Args) {
+			en.fail("%s: missing argument", x.Fun)
+		}
+		return en.eval(x.Args[i])
+	}
+	switch x.Fun {
+	case "len", "cap":
+		a := arg(0)
+		t := a.v.(*Term)
+		switch t.Sort {
+		case SSl:
+			if x.Fun == "len" {
+				return ev{App(SInt, "sl-len", t), nil}
+			}
+			return ev{App(SInt, "sl-cap", t), nil}
+		case SInt:
+			if a.t != nil {
+				if mt, ok := a.t.Underlying().(*types.Map); ok {
+					return ev{e.mapLen(en.st, t, mt), nil}
+				}
+			}
+			return ev{App(SInt, "slen", t), nil}
+		}
+		en.fail("len of %s", t.Sort)
+	case "idof":
+		return ev{App(SInt, "sl-id", arg(0).v.(*Term)), nil}
+	case "offof":
+		return ev{App(SInt, "sl-off", arg(0).v.(*Term)), nil}
+	case "fresh":
+		// allocated during this activation
+		a := arg(0)
+		t := a.v.(*Term)
+		id := t
+		if t.Sort == SSl {
+			id = App(SInt, "sl-id", t)
+		} else if t.Sort == SObj {
+			id = App(SInt, "o-int", t)
+		}
+		return ev{Le(e.heapRead(en.old, "$alloc", SInt), id), nil}
+	case "allocated":
+		// existed at entry
+		a := arg(0)
+		t := a.v.(*Term)
+		id := t
+		if t.Sort == SSl {
+			id = App(SInt, "sl-id", t)
+		}
+		return ev{Lt(id, e.heapRead(en.old, "$alloc", SInt)), nil}
+	case "is":
+		// is(x, T): dynamic type of interface value x is T
+		a := arg(0)
+		tn := typeExprName(x.Args[1])
+		if u, ok := x.Args[1].(*EUnary); ok && u.Op == "*" {
+			tn = "*" + typeExprName(u.X)
+		}
+		if tn == "" {
+			en.fail("is(x, T): bad type")
+		}
+		if c, ok := x.Args[1].(*ECall); ok && c.Fun == "ptr" {
+			tn = "*" + typeExprName(c.Args[0])
+		}
+		t := en.typeByName(tn)
+		return ev{Eq(App(SInt, "o-tag", a.v.(*Term)), IntLit(int64(e.tag(t)))), nil}
+	case "tag":
+		return ev{App(SInt, "o-tag", arg(0).v.(*Term)), nil}
+	case "asInt":
+		// payload of a boxed integer-like value
+		return ev{App(SInt, "o-int", arg(0).v.(*Term)), nil}
+	case "asList":
+		a := arg(0)
+		lt := en.typeByName("slip.List")
+		return ev{App(SSl, "o-sl", a.v.(*Term)), lt}
+	case "box":
+		// box(v, T): interface value holding v with dynamic type T
+		a := arg(0)
+		t := en.typeByName(typeExprName(x.Args[1]))
+		return ev{e.box(a.v, t), nil}
+	case "min", "max":
+		a, b := en.intTerm(x.Args[0]), en.intTerm(x.Args[1])
+		if x.Fun == "min" {
+			return ev{Ite(Le(a, b), a, b), nil}
+		}
+		return ev{Ite(Le(a, b), b, a), nil}
+	case "has":
+		// has(m, k): key in map
+		a := arg(0)
+		mt, ok := a.t.Underlying().(*types.Map)
+		if !ok {
+			en.fail("has: not a map")
+		}
+		return ev{e.mapHas(en.st, a.v.(*Term), mt, en.keyTerm(x.Args[1], mt.Key())), nil}
+	}
+	if g, ok := en.e.ghostFuncs[x.Fun]; ok {
+		var as []ev
+		for i := range x.Args {
+			as = append(as, arg(i))
+		}
+		return g(en, as)
+	}
+	if sf, ok := e.Opt.Contracts.Specs[x.Fun]; ok {
+		if len(sf.Params) != len(x.Args) {
+			en.fail("spec function %s: arity", x.Fun)
+		}
+		vars := map[string]ev{}
+		for i, p := range sf.Params {
+			vars[p] = arg(i)
+		}
+		return en.with(vars).eval(sf.Body)
+	}
+	en.fail("unknown function %s in contract", x.Fun)
+	return ev{}
+}
+
+// ---------------------------------------------------------------------------
+
+func (e *Exec) newEnv(fr *Frame, st *State, old *State) *evalEnv {
+	q := 0
+	return &evalEnv{e: e, fr: fr, fn: fr.fn, st: st, old: old, vars: map[string]ev{}, qn: &q}
+}
+
+func (e *Exec) evalClause(en *evalEnv, cl *Clause) (t *Term) {
+	defer func() {
+		if r := recover(); r != nil {
+			if ee, ok := r.(evalErr); ok {
+				panic(unsupported{"contract: " + ee.msg + " in `" + cl.Text + "`"})
+			}
+			panic(r)
+		}
+	}()
+	return en.boolTerm(cl.Expr)
+}
+
+func (e *Exec) assumeRequires(fr *Frame, st *State, c *Contract) {
+	for _, cl := range c.Requires {
+		en := e.newEnv(fr, st, st)
+		e.assume(st.pc, e.evalClause(en, cl))
+	}
+}
+
+func clauseName(cl *Clause, i int) string {
+	if cl.Label != "" {
+		return cl.Label
+	}
+	return fmt.Sprintf("%d", i+1)
+}
+
+func (e *Exec) bindResults(en *evalEnv, fn *ssa.Function, res []Value) {
+	rs := fn.Signature.Results()
+	for i := 0; i < rs.Len() && i < len(res); i++ {
+		v := ev{res[i], rs.At(i).Type()}
+		if n := rs.At(i).Name(); n != "" && n != "_" {
+			en.vars[n] = v
+		}
+		en.vars[fmt.Sprintf("result%d", i)] = v
+		if i == 0 {
+			en.vars["result"] = v
+		}
+	}
+}
+
+func (e *Exec) atReturn(fr *Frame, st *State, res []Value, c *Contract) {
+	for _, h := range e.retHooks {
+		h(e, fr, st, res)
+	}
+	if c == nil {
+		return
+	}
+	for i, cl := range c.Ensures {
+		en := e.newEnv(fr, st, e.entry)
+		e.bindResults(en, fr.fn, res)
+		g := e.evalClause(en, cl)
+		e.oblige(st, "post", clauseName(cl, i), g, "")
+	}
+}
 
 func (e *Exec) callByContract(fr *Frame, st *State, x *ssa.Call, callee *ssa.Function, ct *Contract) (Value, bool) {
-	panic(unsupported{"contracts not implemented"})
+	// callee frame used only to bind parameter names to argument values
+	cf := &Frame{fn: callee, vals: map[ssa.Value]Value{}, locals: map[*ssa.Alloc]string{}, parent: nil}
+	for i, p := range callee.Params {
+		cf.vals[p] = e.val(fr, x.Call.Args[i])
+	}
+	pre := st.clone()
+	for i, cl := range ct.Requires {
+		en := e.newEnv(cf, st, st)
+		g := e.evalClause(en, cl)
+		e.oblige(st, "pre", callee.Name()+":"+clauseName(cl, i), g, e.posOf(x))
+	}
+	e.argsEscape(fr, st, &x.Call)
+	e.havoc(st, e.P.ModSetOf(callee))
+	e.bumpAlloc(st)
+	res := e.callResult(st, x)
+	var rl []Value
+	if tv, ok := res.(*Tuple); ok {
+		rl = tv.Vs
+	} else if res != nil {
+		rl = []Value{res}
+	}
+	for _, cl := range ct.Ensures {
+		en := e.newEnv(cf, st, pre)
+		e.bindResults(en, callee, rl)
+		e.assume(st.pc, e.evalClause(en, cl))
+	}
+	return res, true
 }
 
 func (e *Exec) contractLoopInvs(fr *Frame, h *ssa.BasicBlock, li *loopInfo, phis []*ssa.Phi, c *Contract, add func(string, bool, func(map[*ssa.Phi]Value, *State) *Term)) {
+	if c == nil || fr.parent != nil {
+		return
+	}
+	for key, cls := range c.Loops {
+		if !strings.Contains(li.key, key) {
+			continue
+		}
+		e.usedLoopKeys[key] = true
+		for i, cl := range cls {
+			cl := cl
+			add(clauseName(cl, i), false, func(v map[*ssa.Phi]Value, st *State) *Term {
+				en := e.newEnv(fr, st, e.entry)
+				en.phis = v
+				return e.evalClause(en, cl)
+			})
+		}
+	}
 }
-
-func (e *Exec) atReturn(fr *Frame, st *State, res []Value, c *Contract) {}
